@@ -414,6 +414,9 @@ func (st *runState) finish(ri *simcheck.RunInfo, sim *simrt.Sim, t0 time.Time, t
 	fmt.Fprintf(h, "%x|%d", sim.TraceHash(), st.db.Count())
 	ri.Hash = h.Sum64()
 	ri.Steps = sim.Steps
+	if sim.Resumes > 0 {
+		ri.Probes["woke-outside-the-baton-and-requeued"] += int(sim.Resumes)
+	}
 	ri.SimNanos = int64(time.Since(t0))
 	ri.NonTrivial = faulty || sim.Multi > 0
 	if sim.Preempts > 0 {
